@@ -397,7 +397,10 @@ pub fn run(cx: &mut Cx) {
         // ... and one pattern with 2^17 (quick) / 2^18 (thorough) expansions, past
         // any plausible work limit, matched by late expansions only
         let huge = cx.pick_tier(0usize, 0, 17, 18);
-        for n in (1..=max2).chain((huge > 0).then_some(huge)) {
+        // ... and one with 2^20 (thorough 2^22): about a second of work that
+        // the specification itself demands
+        let huger = cx.pick_tier(0usize, 0, 20, 22);
+        for n in (1..=max2).chain((huge > 0).then_some(huge)).chain((huger > 0).then_some(huger)) {
             // 2^n expansions; the last one in expansion order is all 'b'
             let p = format!("{}-1.0", "{a,b}".repeat(n));
             let mixed: String = (0..n).map(|i| if i % 2 == 0 { 'b' } else { 'a' }).collect();
